@@ -17,14 +17,62 @@ CLAIM = {
             'C01 model emits (d_min proved minimal over ALL pairs: 2 sin(pi/M) for PSK, one grid step 2/e for QAM), '
             'the QAM coefficient being the mean per-axis neighbour count. The formulas are tied to fundamental.py '
             'by comparing coefficient and Q-argument (model, Float) with the methods\' outputs over -30..60 dB for '
-            'every order, with Q = 0.5 erfc(x/sqrt 2) from math.erfc, and d_min measured on Modulator.symbols.',
+            'every order, with Q = 0.5 erfc(x/sqrt 2) from math.erfc, and d_min measured on Modulator.symbols. '
+            'Robustness classes: (R15) the model curves are STRICTLY decreasing in SNR for a strictly decreasing Q - '
+            'proved for the Gaussian tail itself - so distinct SNR values / packet lengths never share a value '
+            '(Properties/C16Robust.lean); on the code, clusters of close-but-distinct SNR values, packet lengths and '
+            'qfunc / dB2Linear arguments each get the first-principles value of THAT value to the conditioning of Q '
+            '(16 eps (4+arg^2), no absolute floor) and are told apart. (R16) a caller refilling ONE argument array in '
+            'place, passing dropped temporaries or one array in two roles gets the pure function of the contents at '
+            'call time and earlier results never change (call machine Model/CallsC16.lean + histories on the code).',
     'note': 'Partial: Q is abstract (IsQ: antitone, Q 0 = 1/2, >= 0, -> 0); that the formulas are the exact AWGN '
             'error rates for BPSK/QAM and a bound within [exact, 2 exact] for PSK is a statement about Gaussian '
             'integrals and is NOT proved - only its algebraic half (formula structure vs constellation geometry). '
             'Order relations are compared in binary64 with absolute slack 2^-52 (1-(1-P)^2 cancels to 0.0 for '
-            'P < 2^-53 while 2P/k > 0). scipy.special.erfc is an oracle checked against math.erfc.',
+            'P < 2^-53 while 2P/k > 0). scipy.special.erfc is an oracle checked against math.erfc. The R15 / R16 '
+            'theorems live in PyPhysim.Properties.C16Robust (built and axiom-audited by the check as a second module); '
+            'the tight R15 references use the exact family geometry (2 sin(pi/M), sqrt(6/(M-1))) after confirming the '
+            'emitted symbols have it to 1e-9; PER is compared to -expm1(L log1p(-BER)) within (L+2) 2^-53 absolute, the '
+            'rounding of the documented formula 1-(1-BER)**L itself.',
 }
 SLACK = 2.0 ** -52
+# theorems of the robustness classes R15 / R16 (a module of their own; built and audited like MODULE)
+EXTRA_MODULE = 'PyPhysim.Properties.C16Robust'
+
+
+def prove_extra(ctx):
+    """build EXTRA_MODULE, scan its import closure for forbidden constructs, audit the axioms of its theorems"""
+    import os
+    if not os.path.exists(os.path.join(core.LEAN_DIR, EXTRA_MODULE.replace('.', '/') + '.lean')):
+        ctx.tie_broken('theorem', EXTRA_MODULE, 'module is missing')
+        return
+    names = core.theorem_names(EXTRA_MODULE)
+    ctx.obligations += len(names)
+    ok, out = core.lake_build([EXTRA_MODULE])
+    if not ok:
+        ctx.tie_broken('theorem', EXTRA_MODULE, 'lake build failed:\n' + out[-1500:])
+        return
+    hits = core.forbidden_scan(core.import_closure([EXTRA_MODULE]))
+    if hits:
+        ctx.tie_broken('audit', 'forbidden-construct', '\n'.join(hits))
+    res, missing, raw = core.audit_axioms(EXTRA_MODULE, ctx.scratch)
+    good = 0
+    for n in names:
+        ax = res.get(n)
+        ctx.theorems[n] = ax
+        if ax is None:
+            ctx.tie_broken('audit', n, 'no #print axioms output: ' + raw[-500:])
+        elif not set(ax) <= core.ALLOWED_AXIOMS:
+            ctx.tie_broken('audit', n, 'axioms ' + ','.join(ax))
+        else:
+            good += 1
+    if not any(b['kind'] == 'tie' for b in ctx.broken):
+        ctx.discharged += good
+    if ctx.tier == 'thorough':
+        rc, out = core.run(['lake', 'env', 'leanchecker', EXTRA_MODULE], cwd=core.LEAN_DIR, timeout=3000)
+        ctx.extra['leanchecker:' + EXTRA_MODULE] = 'ok' if rc == 0 else 'failed'
+        if rc != 0:
+            ctx.tie_broken('audit', 'leanchecker:' + EXTRA_MODULE, out[-1500:])
 
 
 def _f():
@@ -395,6 +443,21 @@ def separated(case):
             if min(a, b) > 1e-290 and abs(a - b) > 4 * max(cond_tol(x), cond_tol(y)) * max(a, b) \
                     and abs(float(case['snr'][i]) - float(case['snr'][j])) <= 1e-8 + 1e-5 * abs(float(case['snr'][j])):
                 n += 1
+    return n
+
+
+def separated_lengths(case):
+    """number of (SNR value, close pair of packet lengths) whose packet error rates the oracle tells apart"""
+    kind, M = case['kind'], case['M']
+    m = make(kind, M)
+    n = 0
+    for s in case['snr']:
+        b = float(m.calcTheoreticalBER(float(s)))
+        for L1 in case.get('lengths', []):
+            for L2 in case.get('lengths', []):
+                if L1 < L2 and near(L1, L2) and abs(per_ref(b, L1) - per_ref(b, L2)) > 4 * (
+                        per_tol(per_ref(b, L1), L1) + per_tol(per_ref(b, L2), L2)):
+                    n += 1
     return n
 
 
@@ -895,6 +958,7 @@ def gen_refillfn(ctx, quick):
 
 
 R_BRANCHES = ['R15:close-but-distinct-snr', 'R15:close-values-told-apart', 'R15:close-packet-lengths',
+              'R15:close-packet-lengths-told-apart',
               'R15:close-arguments-of-qfunc-dB2Linear', 'R15:close-phase-offsets',
               'R16:argument-buffer-refilled-in-place', 'R16:temporary-argument-id-reused',
               'R16:one-array-in-two-roles', 'R16:function-argument-buffer-refilled']
@@ -926,6 +990,8 @@ def robustness(ctx, quick, with_corr=True):
             ctx.branch('R15:close-values-told-apart')
         if 'lengths' in c:
             ctx.branch('R15:close-packet-lengths')
+            if separated_lengths(c):
+                ctx.branch('R15:close-packet-lengths-told-apart')
     for c in gen_closefn(ctx, quick):
         run_oracle(ctx, 'closefn', c, key=('closefn', c['fn'], c['x'][0]))
         ctx.branch('R15:close-arguments-of-qfunc-dB2Linear')
@@ -949,12 +1015,21 @@ def robustness(ctx, quick, with_corr=True):
 def check(ctx):
     quick = ctx.tier == 'quick'
     ctx.rule = ('modulators BPSK, QPSK, PSK 2..2^10, QAM 4..4^k; SNR grid over [-30,60] dB plus seeded points, '
-                'scalar and array paths; packet lengths 1..10^4; non-trivial = distinct (formula, modulator, M, SNR index)')
+                'scalar and array paths; packet lengths 1..10^4; non-trivial = distinct (formula, modulator, M, SNR index). '
+                'R15: per modulator, clusters of close-but-distinct SNR values (adjacent doubles, +-1e-12..1e-8, relative '
+                '1e-6..1e-5, tiny magnitudes around 0 dB) at 10+ base points, as scalars in sequence on one object and in '
+                'one array; close packet lengths (L, L+1 at 10^3 and 10^6); close arguments of qfunc / dB2Linear; each '
+                'compared with the first-principles value for THAT value to 16 eps (4+arg^2) relative (the conditioning '
+                'of Q), pairs further apart than 4 tolerances counted as told apart. R16: per modulator 7 deterministic '
+                '(+ seeded) histories of 2..4 calls (SER/BER/PER/SE) on ONE argument array refilled in place / on '
+                'dropped temporaries, float64/int64/float32, 0-d..3-d, own or strided, one or two modulators; one '
+                'array as SNR and packet length; the same for qfunc / dB2Linear')
     psk_max, qam_max = (1 << 10, 4 ** 5) if quick else (1 << 12, 4 ** 6)
     n = 46 if quick else 361
     snrs = [-30.0 + 90.0 * i / (n - 1) for i in range(n)] + [ctx.rng.uniform(-30, 60) for _ in range(10)]
     lengths = [1, 2, 10, 1000] if quick else [1, 2, 3, 10, 100, 1000, 10000]
     core.prove(ctx, MODULE, generated=['C16Formulas'], drivers=[DRIVER], scratch=ctx.scratch)
+    prove_extra(ctx)
     ctx.required_branches = ['curve:BPSK', 'curve:PSK', 'curve:QAM', 'curve:QPSK'] + R_BRANCHES + R_CORR_BRANCHES
     try:
         correspondence(ctx, psk_max, qam_max, snrs, lengths)
@@ -983,6 +1058,7 @@ def check(ctx):
 
 
 def search(ctx):
+    robustness(ctx, False, with_corr=False)
     snrs = [-30.0 + 0.05 * i for i in range(1801)]
     for kind, M in mods(1 << 12, 4 ** 6):
         run_oracle(ctx, 'curves', {'kind': kind, 'M': M, 'snr': snrs, 'lengths': [1, 7, 1000]})
